@@ -1027,4 +1027,3 @@ func (ex *Exec) vfsEvent(kind, path string) {
 	ex.ghost[key] = mkConst(64, uint64(n+1))
 	ex.ghost[fmt.Sprintf("vfs-event:%d", n)] = &StrVal{S: kind + " " + path}
 }
-
